@@ -54,6 +54,12 @@ LEAVES = {
     # signs, a minus sign as the only separator, commas between pairs, line breaks and tabs
     'polyline_lexical': ('polyline', {'points': '.5,.25 4.,2. 3e0,5E-1 +7,+6 8-1 -2-3'}),
     'polygon_lexical': ('polygon', {'points': ' 1,1,5,1.5,4,5\n-.75 1.5e1\t2.5E+0,-.5e-1 '}),
+    # drawings a thousand million times smaller, and shapes that ALMOST close (last point 1e-9 from the first)
+    'polyline_tiny': ('polyline', {'points': '1e-9,1e-9 4e-9,2e-9 3e-9,5e-9 7e-9,6e-9'}),
+    'polyline_almost_closed': ('polyline', {'points': '1,1 4,2 3,5 1.000000001,1'}),
+    'path_tiny_open': ('path', {'d': 'M 1e-9 1e-9 L 5e-9 2e-9 L 4e-9 6e-9'}),
+    'path_almost_closed': ('path', {'d': 'M 1 1 L 5 2 L 4 6 L 1.000000001 1.0000000005'}),
+    'line_tiny': ('line', {'x1': '1e-9', 'y1': '2e-9', 'x2': '7e-9', 'y2': '5e-9'}),
     'rect_plain': ('rect', {'x': '1', 'y': '2', 'width': '6', 'height': '4'}),
     'rect_rx': ('rect', {'x': '1', 'y': '2', 'width': '6', 'height': '4', 'rx': '1.5'}),
     'rect_ry': ('rect', {'x': '1', 'y': '2', 'width': '6', 'height': '4', 'ry': '1'}),
@@ -179,9 +185,19 @@ def path_polylines(p, n=600):
     return out
 
 
-def geometry_matches(p, polys, size):
+def geometry_matches(p, polys, size, src=None):
     from svgpathtools import Line as _Line
     got = path_polylines(p)
+    if src is not None and len(src) == 1 and all(isinstance(s_, _Line) for s_ in p):
+        # a straight-sided shape given by ONE list of vertices: as many sides (of non-zero length) as the specification
+        # draws, and closed exactly when the specification closes it - whatever the size of the drawing (a spurious
+        # or missing closing side of length 1e-9 is below any position tolerance)
+        want_sides = sum(1 for a_, b_ in zip(src[0], src[0][1:]) if a_ != b_)
+        got_sides = sum(1 for s_ in p if s_.start != s_.end)
+        if want_sides != got_sides:
+            return 'returned path has %d sides of non-zero length, the element draws %d' % (got_sides, want_sides)
+        if (p[0].start == p[-1].end) != (src[0][0] == src[0][-1]) and want_sides > 1:
+            return 'returned path is %s, the element as specified is %s' % ('closed' if p[0].start == p[-1].end else 'open', 'closed' if src[0][0] == src[0][-1] else 'open')
     # polylines of 600 chords per curved segment: sagitta <= (L/600)^2/(8 r) stays below this
     # tolerance for the shapes of the alphabet; semantic errors are O(size)
     tol = 5e-4 * size
@@ -229,7 +245,7 @@ def check_doc(kind, ta, tb, acc, tmpdir, leaves, readers=None):
         if not isinstance(p, Path) or len(p) == 0:
             acc.violation('not_a_path', sig, case, observed=repr(p)[:200])
             return
-        m = geometry_matches(p, polys, size)
+        m = geometry_matches(p, polys, size, src=ref_polylines(rec, False))
         if m:
             acc.violation('geometry_differs_from_reference', sig, case, observed=m, expected='reference shape %s chain %r' % (rec['tag'], rec['chain']))
             return
@@ -436,7 +452,7 @@ def check_options(variant, acc, tmpdir, only=None):
             if not isinstance(p, Path) or len(p) == 0:
                 acc.violation('not_a_path', dict(sig, element=rec['tag']), dict(case, id=i), observed=repr(p)[:200])
                 return
-            m = geometry_matches(p, polys, size)
+            m = geometry_matches(p, polys, size, src=ref_polylines(rec, False))
             if m:
                 acc.violation('geometry_differs_from_reference', dict(sig, element=rec['tag']), dict(case, id=i), observed=m,
                               expected='reference shape %s chain %r' % (rec['tag'], rec['chain']))
